@@ -239,7 +239,7 @@ func (C19) Explore(x *kernel.Explorer, seed uint64) {
 	for i := 0; i < 4 && !x.Expired(); i++ {
 		plan := &kernel.Plan{Prop: "C19", Seed: kernel.Mix(seed, uint64(i)), Swarm: map[string]int64{
 			"chunk": int64(r.Intn(4)), "type": int64(r.Intn(4)), "policy": int64(r.Intn(4)), "env": int64(r.Intn(2)),
-			"binary": int64(r.Intn(2)), "params": int64(r.Intn(2)), "describe": int64(r.Intn(2))}}
+			"binary": int64(r.Intn(2)), "params": int64(r.Intn(2)), "describe": int64(r.Intn(2)), "extra": int64(r.Intn(2))}}
 		n := 1 + r.Intn(4)
 		for j := 0; j < n; j++ {
 			plan.Ops = append(plan.Ops, kernel.Op{ID: j + 1, Kind: "row", A: []int64{int64(r.Intn(8))}})
@@ -311,7 +311,12 @@ func (C19) Run(t *testing.T, plan *kernel.Plan, keepLog bool) *kernel.Result {
 		case "int64":
 			col.Default, defText = "9876543210123", "9876543210123"
 		}
-		pw, names, err := colWorld(w, plan, rng, []colKind{col})
+		cols19 := []colKind{col}
+		if plan.Sw("extra") == 1 {
+			// a second typed column (bytes) selected after the first one
+			cols19 = append(cols19, colKind{Name: "c2", Envelope: col.Envelope, DataType: "bytes"})
+		}
+		pw, names, err := colWorld(w, plan, rng, cols19)
 		if err != nil {
 			w.Violate("C19", "world-builds", "pg", err.Error())
 			return
@@ -325,12 +330,12 @@ func (C19) Run(t *testing.T, plan *kernel.Plan, keepLog bool) *kernel.Result {
 				v = strings.ReplaceAll(v, "\x00", "0") // a literal cannot carry NUL
 			}
 			values = append(values, v)
-			script = append(script, insertStmt(names, i+1, []string{v}, []colKind{col}, plan.Sw("params") == 1))
+			script = append(script, insertStmt(names, i+1, []string{v, "extra-bytes"}[:len(cols19)], cols19, plan.Sw("params") == 1))
 		}
 		read := func(i int) Stmt {
-			st := Stmt{SQL: fmt.Sprintf("SELECT id, plain, c1 FROM t1 WHERE id = %d", i+1)}
+			st := Stmt{SQL: fmt.Sprintf("SELECT %s FROM t1 WHERE id = %d", strings.Join(names, ", "), i+1)}
 			if binaryRes {
-				st.Extended, st.ResultFormats, st.Describe = true, []int16{0, 0, 1}, true
+				st.Extended, st.ResultFormats, st.Describe = true, []int16{0, 0, 1, 1}[:len(names)], true
 			} else if plan.Sw("describe") == 1 {
 				st.Extended, st.Describe = true, true
 			}
@@ -361,7 +366,7 @@ func (C19) Run(t *testing.T, plan *kernel.Plan, keepLog bool) *kernel.Result {
 				w.Violate("C19", "owner-gets-declared-type", site, fmt.Sprintf("value %q: err=%q rows=%d", v, res.Err, len(res.Rows)))
 				continue
 			}
-			if len(res.Fields) == 3 && res.Fields[2].DataTypeOID != c19OID[typ] {
+			if len(res.Fields) >= 3 && res.Fields[2].DataTypeOID != c19OID[typ] {
 				w.Violate("C19", "column-described-as-declared-type", site, fmt.Sprintf("declared %s (oid %d) but described with oid %d", typ, c19OID[typ], res.Fields[2].DataTypeOID))
 			}
 			got, derr := c19Decode(typ, format, res.Rows[0][2])
@@ -454,6 +459,15 @@ func (C09) Explore(x *kernel.Explorer, seed uint64) {
 	}
 }
 
+func c09Index(v string) int {
+	for i, x := range c09Values {
+		if x == v {
+			return i
+		}
+	}
+	return 0
+}
+
 var c09Values = []string{"alpha-search-value", "alpha-search", "beta-search-value", "alpha-search-value2", "g", "delta value with spaces", "absent-value", "alpha", ""}
 
 func (C09) Run(t *testing.T, plan *kernel.Plan, keepLog bool) *kernel.Result {
@@ -491,6 +505,7 @@ func (C09) Run(t *testing.T, plan *kernel.Plan, keepLog bool) *kernel.Result {
 				continue
 			}
 			s := search{c09Values[int(op.Arg(0, 0))%len(c09Values)], int(op.Arg(1, 0))}
+			val2 := c09Values[(int(op.Arg(0, 0))+2)%6]
 			if s.val == "" {
 				continue
 			}
@@ -511,6 +526,14 @@ func (C09) Run(t *testing.T, plan *kernel.Plan, keepLog bool) *kernel.Result {
 				st.SQL = "SELECT id FROM t1 WHERE c1 = " + lit + " OR id = 1"
 			case 4:
 				st.SQL = "SELECT id FROM t1 WHERE " + lit + " = c1" // the column on the right of the operator
+			case 5:
+				// two searched values in one statement (two placeholders in one Bind)
+				lit2 := sqlQuote(val2)
+				if usePar {
+					st.Params = append(st.Params, []byte(val2))
+					lit2 = "$2"
+				}
+				st.SQL = "SELECT id FROM t1 WHERE c1 = " + lit + " OR c1 = " + lit2
 			default:
 				st.SQL = "SELECT id FROM t1 WHERE c1 = " + lit
 			}
@@ -561,6 +584,10 @@ func (C09) Run(t *testing.T, plan *kernel.Plan, keepLog bool) *kernel.Result {
 					}
 				case 3:
 					if eq || i == 0 {
+						want[i+1] = true
+					}
+				case 5:
+					if eq || v == c09Values[(c09Index(s.val)+2)%6] {
 						want[i+1] = true
 					}
 				default:
